@@ -6,6 +6,9 @@ independent oracle rendering.  Counterexamples are replayed through the real, un
 execute_with_session (real query compilation from the query TEXT) and, for the ordering finding,
 through the whole CLI path (real files, `db create`, `zorg query`).
 """
+import os as _os
+_os.environ["XH_NO_PATCH"] = "1"   # this process replays on the real code: never patch zorg here
+
 import importlib.util
 import os
 import shutil
